@@ -1,3 +1,4 @@
 import DurableModel
 import Proofs.Lock
 import Proofs.Serdes
+import Proofs.Batcher
